@@ -49,8 +49,10 @@ def c17Decode (nc np nr : Nat) : List UInt8 → Option (Op × List UInt8)
     match code, rest with
     | 0, rest => some (.newProto, rest)
     | 1, v :: rest => some (.new (c17Cids[v.toNat % 4]!), rest)
-    | 2, c :: rest => some (.clone (c17Idx nc c), rest)
-    | 19, c :: rest => some (.clone (c17Idx nc c), rest)
+    -- clone variants (o / 20) % 4: 0 FContextImpl.Clone, 1 package Clone, 2 package Clone of a foreign FContext
+    -- without ephemeral properties (the generic branch), 3 package Clone of a foreign FContextWithEphemeralProperties
+    | 2, c :: rest => some (.clone (c17Idx nc c) (o.toNat / 20 % 4 == 2), rest)
+    | 19, c :: rest => some (.clone (c17Idx nc c) (o.toNat / 20 % 4 == 2), rest)
     | 3, p :: oid :: n :: rest => do
       let (ps, rest') ← c17Pairs (n.toNat % 5) rest
       let extra : Hdrs :=
@@ -65,8 +67,12 @@ def c17Decode (nc np nr : Nat) : List UInt8 → Option (Op × List UInt8)
     | 8, c :: k :: rest => some (.read (c17Idx nc c) (.header .req (c17Key k)), rest)
     | 9, c :: k :: rest => some (.read (c17Idx nc c) (.header .resp (c17Key k)), rest)
     | 10, c :: k :: rest => some (.read (c17Idx nc c) (.header .eph (c17Key k)), rest)
-    | 11, c :: rest => some (.read (c17Idx nc c) .timeout, rest)
-    | 12, c :: rest => some (.read (c17Idx nc c) .cid, rest)
+    | 11, c :: rest =>
+      let q : Query := if o.toNat / 20 % 3 = 0 then .timeout else if o.toNat / 20 % 3 = 1 then .toContext else .opId
+      some (.read (c17Idx nc c) q, rest)
+    | 12, c :: rest =>
+      let q : Query := if o.toNat / 20 % 3 = 0 then .cid else if o.toNat / 20 % 3 = 1 then .wireReq else .wireResp
+      some (.read (c17Idx nc c) q, rest)
     | 13, c :: rest => some (.get (c17Idx nc c) (which 0), rest)
     | 14, c :: rest => some (.get (c17Idx nc c) (which 1), rest)
     | 15, c :: rest => some (.get (c17Idx nc c) (which 2), rest)
@@ -85,6 +91,8 @@ def c17Obs : Obs → String
   | .val (some v) => "v=" ++ hexOf v
   | .dur ns => "t=" ++ toString ns
   | .map m => "m=" ++ pairsOf m
+  | .num n => "n=" ++ toString n
+  | .flag b => if b then "f=1" else "f=0"
 
 /-- Decode-and-run; the fuel is the program length (every op consumes ≥ 1 byte). -/
 def c17Run : Nat → State → List UInt8 → List Obs → State × List Obs
@@ -111,6 +119,12 @@ def stepContextHeap (op : String) (args : List String) : Option String :=
     if start ≥ M64 then none else
     let (s, obs) := c17Run (prog.length + 1) (State.init start) prog []
     pure ("ok " ++ "|".intercalate (obs.map c17Obs) ++ " # " ++ c17Dump s)
+  -- a free-running concurrent case (harness: child process): the model's prediction is that
+  -- nothing goes wrong — no crash, no block, ids distinct, every serialised frame a snapshot
+  | "c17conc", [x, it] => do
+    let _ ← unhex x
+    let _ ← it.toNat?
+    pure "ok"
   | _, _ => none
 
 end Driver
